@@ -120,6 +120,48 @@ def make_scenarios(ctx, count):
     return scns
 
 
+SEE_CAP = 1024          # the responder may stop recording new observations once this many are pending (memory bound, C19)
+
+
+def make_saturating(ctx, count):
+    """the pending record reaches the responder's bound, is then delivered completely by Queries (no Reset), and fresh
+    observations arrive afterwards: a Query round ends the same way a Reset does"""
+    scns = []
+    for i in range(count):
+        rng = G.rng_for(ctx.seed, "C07sat", i)
+        mtu = rng.choice([9216, 9000, 4096])
+        cfg = G.rand_cfg(rng, mtu=mtu)
+        net = G.Net(rng, cfg["mac"])
+        own = cfg["mac"]
+        cap = G.cap_qresp(mtu)
+        m = rng.randrange(len(net.mappers))
+        frames = [G.f_discover(rng, net, m=m, tos=0)]
+        seq = rng.randint(1, 50000)
+        real = rng.choice(net.strangers)
+        k = rng.choice([1024, 1025, 1100, 1600])
+        for j in range(k):
+            frames.append(W.probe(own, bytes([2, 0x7e]) + j.to_bytes(4, "big"), own, real, train=(j % 3 == 0)))
+            if j == 500 and rng.random() < 0.25:
+                seq += 1
+                frames.append(G.f_query(rng, net, m, seq=seq))
+        for _ in range((SEE_CAP + cap - 1) // cap + 2):
+            seq += 1
+            frames.append(G.f_query(rng, net, m, seq=seq))
+        for rnd in range(2):
+            for j in range(rng.randint(1, 4)):
+                frames.append(W.probe(own, bytes([2, 0x7f, rnd]) + j.to_bytes(3, "big"), own, real))
+            seq += 1
+            frames.append(G.f_query(rng, net, m, seq=seq))
+            seq += 1
+            frames.append(G.f_query(rng, net, m, seq=seq))
+        s = H.Scenario("sat%d" % i, meta=dict(frames=frames, own=own, mtu=mtu, bridged=False, mtu_changes={}, saturating=True))
+        s.iface(0, **H.iface_kw(cfg)).glob(**G.global_kw(G.rand_global(rng, icon_size=50)))
+        s.add("OPT sleep=0")
+        s.frames(0, frames)
+        scns.append(s)
+    return scns
+
+
 def monitor(scn, sobj, rep, sf, ck):
     frames = sobj.meta["frames"]
     own, mtu = sobj.meta["own"], sobj.meta["mtu"]
@@ -127,6 +169,7 @@ def monitor(scn, sobj, rep, sf, ck):
     mm = MapperModel()
     om = ObsModel(own)
     seen = set()
+    maybe = set()
     queries = 0
     drain_len = 0
     listed_total = 0
@@ -146,11 +189,19 @@ def monitor(scn, sobj, rep, sf, ck):
         if tos != 0:
             continue
         if op in (W.OP_PROBE, W.OP_TRAIN):
+            key = (bytes(fr[6:12]), bytes(fr[24:30]))
+            if len(om.pending) >= SEE_CAP and key not in om.pending and fr[0:6] == own and fr[18:24] == own:
+                maybe.add(key)                   # beyond the responder's bound: may or may not have been recorded
+                seen.add("record-at-its-bound")
+                continue
             what = om.probe(fr)
             rep.count("probes:" + what)
+            if len(om.pending) >= SEE_CAP:
+                seen.add("record-at-its-bound")
             continue
         if op == W.OP_RESET:
             om.reset()
+            maybe.clear()
             continue
         if op != W.OP_QUERY:
             continue
@@ -197,6 +248,9 @@ def monitor(scn, sobj, rep, sf, ck):
                 continue
             keys.append(k)
             p = om.pending.get(k)
+            if p is None and k in maybe:
+                maybe.discard(k)
+                continue
             if p is None:
                 bad("invented-or-repeated-observation", "eth src %s real src %s eth dst %s was not pending" % (esrc.hex(), rsrc.hex(), edst.hex()))
                 continue
@@ -206,7 +260,9 @@ def monitor(scn, sobj, rep, sf, ck):
         listed_total += len(keys)
         if pending_before > 0 and n == 0:
             bad("pending-observations-not-listed", "empty response")
-        if more != (len(om.pending) > 0):
+        if maybe and not om.pending:
+            pass                                 # whether anything beyond the bound is still held is the responder's business
+        elif more != (len(om.pending) > 0):
             if more:
                 bad("more-flag-set-but-nothing-remains", "more flag set, model has nothing left")
             else:
@@ -222,6 +278,10 @@ def monitor(scn, sobj, rep, sf, ck):
             drain_len = 0
         if pending_before == 0:
             seen.add("empty-query")
+        if sobj.meta.get("saturating") and "record-at-its-bound" in seen and pending_before > 0 and pending_before < 10 and len(keys) == pending_before:
+            seen.add("fresh-observations-reported-after-the-bound-was-reached-and-drained")
+        if not om.pending:
+            maybe.clear()
         if pending_before >= cap:
             seen.add("at-or-over-capacity")
     rep.evaluations += queries
@@ -245,13 +305,14 @@ def run(ctx):
                        "probes are sent with the topology-discovery service type; mixed addressing is C10's question"]
     binary, plain = H.build_many(ctx.work, [dict(flavour="asan"), dict(flavour="plain")])
     scns = make_scenarios(ctx, ctx.n(400, 12000))
+    scns = scns + make_saturating(ctx, ctx.n(12, 120))
     run_monitored(ctx, binary, scns, monitor, tag="query")
     # once more without red zones: a corrupted record that makes the sanitizer stop the child is, on the plain
     # build, visible as lost / duplicated / invented observations
     run_monitored(ctx, plain, scns, monitor, tag="query-plain")
     c = rep.counters
     rep.need("queries_judged", c.get("queries_judged", 0), 2000)
-    for name in ("more-bit", "bridged", "direct", "drain>=3-queries", "empty-query", "at-or-over-capacity", "mtu-changed-mid-history"):
+    for name in ("fresh-observations-reported-after-the-bound-was-reached-and-drained", "more-bit", "bridged", "direct", "drain>=3-queries", "empty-query", "at-or-over-capacity", "mtu-changed-mid-history"):
         rep.need(name, c.get("reach:" + name, 0), 10)
     rep.need("clock_gaps_between_frames", rep.counters.get("clock_gaps_between_frames", 0), 200)
     rep.need("inputs_of_a_second_interface_in_between", rep.counters.get("inputs_of_a_second_interface_in_between", 0), 500)
